@@ -153,6 +153,8 @@ func runBatch(bin string, spec *Spec, tier string, idxs []int, verifSeed uint64,
 	cmd.Stdout = ef
 	cmd.Stderr = ef
 	cmd.Env = append(os.Environ(), spec.Env...)
+	raceLog := filepath.Join(workDir, tag+".race")
+	cmd.Env = append(cmd.Env, "VERIF_RACE_LOG="+raceLog, "GORACE=halt_on_error=0 log_path="+raceLog)
 	err := cmd.Run()
 	ef.Close()
 	res := batchResult{crashLog: map[int]string{}}
